@@ -23,7 +23,7 @@ RULE = ("samples: {BaseSamples,Samples,SMCSamples} x {numpy,torch,jax} x {float3
         "{flat,nested} x N in {1,3} x parameter names stored in / not in lexicographic order; histories: FlowHistory, SMCHistory with 0..3 stored populations and populated/empty series; "
         "transforms: every class (Identity, Periodic, Logit, Probit, Affine, Composite x 6 option combinations, FlowTransform) "
         "fitted and unfitted x namespace; flows: ZukoFlow / FlowJax x {default, non-default kwargs} x {float32,float64} x "
-        "{untrained, trained} x {first save, second save of the same object, save of the reloaded object}, and a zuko flow built without any dtype under torch.set_default_dtype(float64) and reloaded under the stock default; Aspire configs: product over {parameters, prior_bounds, periodic, flow kwargs, xp, dtype, eps, "
+        "{untrained, trained} x dims {2, 3, 4} x {first save, second save of the same object, save of the reloaded object}, and a zuko flow built without any dtype under torch.set_default_dtype(float64) and reloaded under the stock default; Aspire configs: product over {parameters, prior_bounds, periodic, flow kwargs, xp, dtype, eps, "
         "bounded_transform} menus via save_config+save_flow -> resume_from_file, and two instances with different settings writing into the same file one after the other; value menu for recursively_save_to_h5_file. "
         "Oracle: observational equality after reload. non-trivial = object with at least one optional field / fitted state / "
         "non-default setting")
@@ -240,14 +240,15 @@ def run_transforms(ns):
 
 
 def run_flows(arg):
-    backend, kwargs_name, dt, trained = arg
+    backend, kwargs_name, dt, trained = arg[:4]
+    dims = arg[4] if len(arg) > 4 else 2  # flowjax draws random permutation layers from its key for dims >= 3
     import torch
     from aspire.flows import get_flow_wrapper
     from aspire.transforms import FlowTransform
 
     r = Report()
     tmp = tempfile.mkdtemp(prefix="c13f_")
-    case = {"part": "flow", "backend": backend, "kwargs": kwargs_name, "dtype": dt, "trained": trained}
+    case = {"part": "flow", "backend": backend, "kwargs": kwargs_name, "dtype": dt, "trained": trained, "dims": dims}
     r.case(explorer.digest(case), nontrivial=True)
     # dt == "default64": no dtype is given anywhere and the saving session runs with torch.set_default_dtype(float64)
     default64 = dt == "default64"
@@ -258,16 +259,19 @@ def run_flows(arg):
         F, fxp = get_flow_wrapper(backend)
         if backend == "zuko":
             kwargs = {} if kwargs_name == "default" else {"hidden_features": [8, 8], "transforms": 2}
-            mk = lambda dtf: F(dims=2, seed=3, dtype=dt, data_transform=dtf, **kwargs)
+            mk = lambda dtf: F(dims=dims, seed=3, dtype=dt, data_transform=dtf, **kwargs)
         else:
             import jax
 
             kwargs = {} if kwargs_name == "default" else {"nn_width": 8, "nn_depth": 1, "flow_layers": 2}
-            mk = lambda dtf: F(dims=2, key=jax.random.key(3), dtype=dt, data_transform=dtf, **kwargs)
-        dtf = FlowTransform(parameters=["zeta", "alpha"], prior_bounds={"zeta": [0.0, 1.0], "alpha": [-5.0, 20.0]}, bounded_transform="logit",
+            mk = lambda dtf: F(dims=dims, key=jax.random.key(3), dtype=dt, data_transform=dtf, **kwargs)
+        pnames = ["zeta", "alpha", "mu", "kappa"][:dims]
+        pbounds = {"zeta": [0.0, 1.0], "alpha": [-5.0, 20.0], "mu": [-1.0, 1.0], "kappa": [0.0, 3.0]}
+        dtf = FlowTransform(parameters=pnames, prior_bounds={k: pbounds[k] for k in pnames}, bounded_transform="logit",
                             xp=fxp, dtype=get_dtype("torch" if backend == "zuko" else "jax", dt))
         rng = np.random.default_rng(0)
-        x = np.stack([0.2 + 0.6 * rng.uniform(size=64), -3 + 20 * rng.uniform(size=64)], axis=1)
+        cols = [0.2 + 0.6 * rng.uniform(size=64), -3 + 20 * rng.uniform(size=64), -0.8 + 1.6 * rng.uniform(size=64), 0.3 + 2.4 * rng.uniform(size=64)]
+        x = np.stack(cols[:dims], axis=1)
         flow = mk(dtf)
         if trained:
             if backend == "zuko":
@@ -545,6 +549,10 @@ def run(tier, seed, workers):
                     if tier == "quick" and backend == "flowjax" and (dt == "float32" or (kw == "custom" and not trained)):
                         continue
                     jobs.append(("run_flows", (backend, kw, dt, trained)))
+    for backend in ("flowjax", "zuko"):
+        jobs.append(("run_flows", (backend, "default", "float64", True, 3)))
+        if tier == "thorough" or backend == "flowjax":
+            jobs.append(("run_flows", (backend, "custom", "float64", False, 4)))
     # no explicit dtype anywhere, saving session with torch's default dtype set to float64, loading session with the stock default
     jobs.append(("run_flows", ("zuko", "default", "default64", True)))
     jobs.append(("run_flows", ("zuko", "custom", "default64", False)))
@@ -569,7 +577,7 @@ def replay(case):
     elif part == "transform":
         r.merge(run_transforms(case["ns"]))
     elif part == "flow":
-        r.merge(run_flows((case["backend"], case["kwargs"], case["dtype"], case["trained"])))
+        r.merge(run_flows((case["backend"], case["kwargs"], case["dtype"], case["trained"], case.get("dims", 2))))
     elif part == "config-rewrite":
         r.merge(run_config_rewrite(case["order"]))
     elif part == "config":
